@@ -94,7 +94,7 @@ def run_session(item):
     d = driver.scratch_dir()
     try:
         driver.write_project(d, {"test_p.py": src})
-        r = driver.run_pytest(d, conf["args"], stdin=conf["stdin"])
+        r = driver.run_pytest(d, conf["args"], stdin=conf["stdin"], tty=bool(conf["stdin"]))
         got = {k.split("::")[-1]: v for k, v in r["outcomes"].items()}
         return {"rc": r["rc"], "outcomes": got, "tail": (r["stdout"] + r["stderr"])[-1500:], "infra": r.get("infra_error")}
     finally:
